@@ -9,7 +9,7 @@ import builtins as _bi
 import z3
 
 from vf.runner import Unsupported
-from vf.pyvc.values import (V, VInt, VBool, NONE, VSeq, VBox, VTuple, VOpt, VObj, VPy, VFunc, VClass,
+from vf.pyvc.values import (V, VInt, VBool, NONE, VSeq, VBox, VTuple, VOpt, VObj, VPy, VFunc, VClass, VRef, VArr,
                             I, B, SeqI, wrap, unwrap, type_of, fresh, fresh_name, const_seq, lift, sort_of)
 
 
@@ -235,6 +235,42 @@ class Ex:
         self._solver_broken = False
         self._keep = []                 # keeps z3 asts alive whose ids are used as keys
         self.no_ctx = False
+        self.heap = {}                  # (class, field) -> z3 array Int -> sort(field); created lazily from fixed entry names
+        self.next_ref = None            # allocation counter: refs 1 .. next_ref-1 are allocated
+
+    # ------------------------------------------------------------------ heap of reference objects (VRef)
+    def heap_field_type(self, cls, name):
+        return self.world.heap_classes.get(cls, {}).get(name)
+
+    def heap_array(self, cls, name, old=False):
+        ty = self.heap_field_type(cls, name)
+        key = (cls, name)
+        if old and self.old is not None:
+            h = self.old.get("$heap", {})
+            if key in h:
+                return h[key]
+            return z3.Const("heap0_%s_%s" % key, z3.ArraySort(I, sort_of(ty)))
+        if key not in self.heap:
+            self.heap[key] = z3.Const("heap0_%s_%s" % key, z3.ArraySort(I, sort_of(ty)))
+        return self.heap[key]
+
+    def alloc_counter(self, old=False):
+        if old and self.old is not None and "$next_ref" in self.old:
+            return self.old["$next_ref"]
+        if self.next_ref is None:
+            self.next_ref = z3.Int("next_ref0")
+            self.define(self.next_ref >= 1)      # an axiom about the entry state: must survive guarded scopes
+        return self.next_ref
+
+    def allocated(self, ref_t, old=False):
+        return z3.And(ref_t >= 1, ref_t < self.alloc_counter(old))
+
+    def new_ref(self, cls):
+        n = self.alloc_counter()
+        r = z3.Int(fresh_name("new_" + cls))
+        self.assume(r == n)
+        self.next_ref = n + 1
+        return VRef(cls, r)
 
     # ------------------------------------------------------------------ facts / branching
     def assume(self, fact):
@@ -379,11 +415,18 @@ class Ex:
             return z3.BoolVal(True)
         if isinstance(v, (VFunc, VClass, VExc)):
             return z3.BoolVal(True)
+        if isinstance(v, VRef):
+            mod = self.world.module_of_class(v.cls)
+            if mod is not None and any(mod.mro_lookup(v.cls, sp) for sp in ("__bool__", "__len__")):
+                raise Unsupported("truth of a reference object with __bool__ / __len__")
+            return v.t != 0
         raise Unsupported("truth of %r" % (v,))
 
     def is_none(self, v):
         if v is NONE:
             return z3.BoolVal(True)
+        if isinstance(v, VRef):
+            return v.t == 0
         if isinstance(v, VOpt):
             return v.isnone
         return z3.BoolVal(False)
@@ -423,6 +466,13 @@ class Ex:
                     codes = [ord(x) for x in c.pyval] if c.kind == "str" else list(c.pyval)
                     return z3.And(hi - lo == len(codes), *[buf[lo + i] == k for i, k in enumerate(codes)])
             return a.t == b.t
+        if isinstance(a, VRef) and isinstance(b, VRef):
+            mod = self.world.module_of_class(a.cls)
+            if mod is not None and mod.mro_lookup(a.cls, "__eq__"):
+                raise Unsupported("== on reference objects with __eq__")
+            return a.t == b.t
+        if isinstance(a, VArr) and isinstance(b, VArr):
+            return a.t == b.t
         if isinstance(a, VTuple) and isinstance(b, VTuple):
             if len(a.items) != len(b.items):
                 return z3.BoolVal(False)
@@ -461,6 +511,8 @@ class Ex:
             return z3.And(z3.Not(b.isnone), self.identical(a, b.val))
         if isinstance(a, (VObj, VBox)) and isinstance(b, (VObj, VBox)):
             return z3.BoolVal(a is b)
+        if isinstance(a, VRef) and isinstance(b, VRef):
+            return a.t == b.t
         if isinstance(a, VBool) and isinstance(b, VBool):
             return a.t == b.t
         if isinstance(a, VPy) and isinstance(b, VPy):
@@ -549,6 +601,8 @@ class Ex:
                     walk(x)
         for r in roots:
             walk(r)
+        snap["$heap"] = dict(self.heap)
+        snap["$next_ref"] = self.alloc_counter() if self.world.heap_classes else None
         return snap
 
     def box_val(self, box):
@@ -793,6 +847,27 @@ class Ex:
             if self.may_raise(obj.isnone):
                 self.raise_(AttributeError)
             obj = obj.val
+        if isinstance(obj, (VRef, VObj)) and not raw:
+            # a property with a setter
+            mod = self.world.module_of_class(obj.cls)
+            ci = mod.cls(obj.cls) if mod is not None else None
+            seen = set()
+            while ci is not None and ci.name not in seen:
+                seen.add(ci.name)
+                if name in ci.setters:
+                    f = VFunc("user", "%s.%s.setter" % (ci.name, name), node=ci.setters[name], cls=ci.name, module=ci.module)
+                    self.call(f.bind(obj), [v], {})
+                    return
+                ci = next((mod.cls(b) for b in ci.bases if mod.cls(b) is not None), None)
+        if isinstance(obj, VRef):
+            ty = self.heap_field_type(obj.cls, name)
+            if ty is None:
+                raise Unsupported("store to undeclared field %s of heap class %s" % (name, obj.cls))
+            if self.may_raise(obj.t == 0):
+                self.raise_(AttributeError)
+            arr = self.heap_array(obj.cls, name)
+            self.heap[(obj.cls, name)] = z3.Store(arr, obj.t, unwrap(ty, v))
+            return
         if isinstance(obj, VObj):
             hook = self.world.setattr_hooks.get(obj.cls)
             if hook is not None and not self.spec_mode:
@@ -1457,6 +1532,13 @@ class Ex:
             obj = obj.val
         if obj is NONE:
             self.raise_(AttributeError, node=node)
+        if isinstance(obj, VRef):
+            ty = self.heap_field_type(obj.cls, name)
+            if ty is None:
+                return self.class_attr(obj.cls, name, obj, node)
+            if not self.spec_mode and self.may_raise(obj.t == 0):
+                self.raise_(AttributeError, node=node)
+            return wrap(ty, z3.Select(self.heap_array(obj.cls, name, old=self.old_mode), obj.t))
         if isinstance(obj, VObj):
             v = self.get_field(obj, name)
             if v is not None:
@@ -1646,6 +1728,12 @@ class Ex:
             if self.may_raise(f.isnone):
                 self.raise_(TypeError, node=node)
             return self.call(f.val, args, kwargs, node)
+        if isinstance(f, VRef) and not args and not kwargs and getattr(f, "weak", False) is not None:
+            # dereferencing a weak reference: weakref.ref(x) is modelled as x itself (the referent is assumed alive)
+            if self.may_raise(f.t == 0):
+                self.raise_(TypeError, node=node)
+            w.speclib.use("weakref.ref(x)() is x: referents of weak references are assumed to be alive")
+            return f
         raise Unsupported("call of %r" % (f,))
 
     def bind_args(self, f, args, kwargs):
@@ -1746,6 +1834,11 @@ class Ex:
             return VInt(z3.If(c, unwrap("int", a), unwrap("int", b)))
         if a is NONE and b is NONE:
             return NONE
+        if isinstance(a, VRef) or isinstance(b, VRef):
+            # references: None is the reference 0
+            cls = a.cls if isinstance(a, VRef) else b.cls
+            if all(x is NONE or (isinstance(x, VRef) and x.cls == cls) for x in (a, b)):
+                return VRef(cls, z3.If(c, unwrap(("ref", cls), a), unwrap(("ref", cls), b)))
         if a is NONE or b is NONE or isinstance(a, VOpt) or isinstance(b, VOpt):
             an = self.is_none(a)
             bn = self.is_none(b)
@@ -1882,7 +1975,10 @@ class Ex:
         real = getattr(mod.real(), c.name, None)
         if isinstance(real, type) and issubclass(real, BaseException):
             return VExc(real, args, node)
-        obj = VObj(c.name, {}, fresh_name(c.name.lower()))
+        if c.name in self.world.heap_classes:
+            obj = self.new_ref(c.name)
+        else:
+            obj = VObj(c.name, {}, fresh_name(c.name.lower()))
         init = mod.mro_lookup(c.name, "__init__")
         if init is not None and init[0] == "method":
             f = VFunc("user", "%s.__init__" % init[2].name, node=init[1], cls=init[2].name, module=mod)
